@@ -8,7 +8,13 @@ with real working trees in the scratch directory.  Kinds of cases:
              branches (in step / out of date), local=True
   roundtrip  edit files, commit the tree (with pending merges), uncommit that
              commit: branch info, tags, tree parents, file bytes and iter_changes
-             must all be what they were before the commit
+             must all be what they were before the commit; also in a bound branch
+             (heavyweight checkout) with commit(local=True) + uncommit(local=True)
+             while the master is at or behind the local tip, and the mixed
+             sequence local commit + non-local uncommit (BoundBranchOutOfDate)
+  localseq   bound branch, master at or behind the tip, 1-3 commit(local=True),
+             then uncommit(local=True/False) at every depth; evaluated as an
+             `uncommit` case on the extended graph
 """
 import json
 import os
@@ -128,6 +134,12 @@ def _uncommit_case(rng, g, force=None):
         case["master"] = {"tip": rng.choice(good), "tags": {}}
     elif r < 0.30:
         case["local"] = True
+    elif r < 0.42:
+        # local branch AHEAD of its master (as after commit --local): local uncommit must work,
+        # non-local uncommit must be refused
+        lh = daglib.lefthand(g, tip)
+        case["master"] = {"tip": rng.choice(lh[1:]) if len(lh) > 1 and rng.random() < 0.85 else tip, "tags": _tags(rng, g)}
+        case["local"] = rng.random() < 0.75
     if force:
         case.update(force)
     return case
@@ -153,6 +165,16 @@ def corpus():
                         "tp": tp, "master": None, "k": k, "keep_tags": False, "local": False})
     out.append({"kind": "roundtrip", "g": g, "tip": 5, "tp": [5, 6], "tags": {"0": 2, "1": 5}, "keep_tags": False,
                 "edit": 2})
+    # heavyweight checkout, local commit(s), local uncommit / mixed
+    for loc in (True, False):
+        out.append({"kind": "roundtrip", "g": g, "tip": 5, "tp": [5, 6], "tags": {"0": 2, "1": 5}, "keep_tags": False,
+                    "edit": 1, "bound": {"tip": 5, "tags": {"1": 5}}, "local": loc})
+        out.append({"kind": "roundtrip", "g": g, "tip": 5, "tp": [5], "tags": {}, "keep_tags": False,
+                    "edit": 0, "bound": {"tip": 4, "tags": {}}, "local": loc})
+        for k in range(3, 7):
+            out.append({"kind": "localseq", "g": g, "tip": 5, "tp": [5, 6], "tags": {"0": 2, "1": 5},
+                        "master": {"tip": 5, "tags": {"7": 0}}, "ncommit": 2, "newtag": True, "keep_tags": False,
+                        "k": k, "local": loc})
     # reversed order of pre-existing pending merges
     out.append({"kind": "uncommit", "g": [[], [0], [0], [0], [0], [1, 2]], "tip": 5, "tags": {}, "tp": [5, 3, 4],
                 "master": None, "k": 1, "keep_tags": False, "local": False})
@@ -184,6 +206,37 @@ def cases(rng, tier):
             tip = rng.choice(good + [None]) if rng.random() < 0.1 else rng.choice(good)
             yield {"kind": "roundtrip", "g": g, "tip": tip, "tp": _tree_parents(rng, g, tip),
                    "tags": _tags(rng, g), "keep_tags": rng.random() < 0.3, "edit": rng.randrange(4)}
+        # bound branch (heavyweight checkout): local commit, then local (or, mixed, non-local) uncommit
+        for _ in range(nrt):
+            tip = rng.choice(good)
+            lh = daglib.lefthand(g, tip)
+            yield {"kind": "roundtrip", "g": g, "tip": tip, "tp": _tree_parents(rng, g, tip),
+                   "tags": _tags(rng, g), "keep_tags": rng.random() < 0.3, "edit": rng.randrange(4),
+                   "bound": {"tip": rng.choice(lh), "tags": _tags(rng, g)}, "local": rng.random() < 0.75}
+        # 1-3 local commits, then every depth
+        tip = rng.choice(good)
+        lh = daglib.lefthand(g, tip)
+        j = rng.randint(1, 3)
+        base = {"kind": "localseq", "g": g, "tip": tip, "tp": _tree_parents(rng, g, tip), "tags": _tags(rng, g),
+                "master": {"tip": rng.choice(lh), "tags": _tags(rng, g)}, "ncommit": j,
+                "newtag": rng.random() < 0.5, "keep_tags": rng.random() < 0.2}
+        for k in range(daglib.revno_of(g, tip) + j + 1):
+            yield dict(base, k=k, local=True)
+        yield dict(base, k=daglib.revno_of(g, tip), local=False)
+        yield dict(base, k=daglib.revno_of(g, tip) + j - 1, local=False)
+
+
+def expand(inp):
+    """A localseq case as the equivalent `uncommit` case on the graph extended by the local commits."""
+    if inp["kind"] != "localseq":
+        return inp
+    g, n, j = inp["g"], len(inp["g"]), inp["ncommit"]
+    g2 = g + [list(inp["tp"])] + [[n + i] for i in range(j - 1)]
+    tags = dict(inp["tags"])
+    if inp["newtag"]:
+        tags["7"] = n + j - 1
+    return {"kind": "uncommit", "g": g2, "tip": n + j - 1, "tags": tags, "tp": [n + j - 1],
+            "master": inp["master"], "k": inp["k"], "keep_tags": inp["keep_tags"], "local": inp["local"]}
 
 
 # ---- implementation driver --------------------------------------------------------------
@@ -278,23 +331,34 @@ def impl(inp):
     wt.set_parent_ids([rid(p) for p in (tp if tp is not None else ([inp["tip"]] if inp["tip"] is not None else []))])
     if tp is not None and [idx(x) for x in wt.get_parent_ids()] != tp:
         raise AssertionError("generator produced a parent list that set_parent_ids changes: %r" % (tp,))
-    if kind == "uncommit":
+    if kind in ("uncommit", "localseq"):
         mb = None
         if inp["master"] is not None:
             mb = _master(site, g)
             _set_branch(mb, g, inp["master"]["tip"], inp["master"]["tags"])
             br.set_bound_location(mb.base)
-        files0 = _disk(wt)
         try:
-            uncommit(br, tree=wt if tp is not None else None, revno=inp["k"] + 1,
-                     keep_tags=inp["keep_tags"], local=inp["local"])
-        except BaseException as e:
-            name = type(e).__name__
-            if name == "PanicException" and "LockContention" in str(e):
-                name = "LockContention"      # raised inside the Rust remove_tags, surfaces as a pyo3 panic
-            if name not in EXPECTED + ("LockContention",):
-                raise
-            return [Err(name)]
+            if kind == "localseq":
+                for i in range(inp["ncommit"]):
+                    _state["fresh"] += 1
+                    wt.commit("local %d" % i, rev_id=b"r%d.%d" % (len(g) + i, _state["fresh"]), local=True)
+                if inp["newtag"]:
+                    d = br.tags.get_tag_dict()
+                    d["t7"] = wt.last_revision()
+                    br.tags._set_tag_dict(d)          # raw: set_tag would also write to the master
+            state0 = [_binfo(br), [idx(x) for x in wt.get_parent_ids()], _binfo(mb) if mb is not None else None]
+            files0 = _disk(wt)
+            try:
+                uncommit(br, tree=wt if tp is not None else None, revno=inp["k"] + 1,
+                         keep_tags=inp["keep_tags"], local=inp["local"])
+            except BaseException as e:
+                name = type(e).__name__
+                if name == "PanicException" and "LockContention" in str(e):
+                    name = "LockContention"      # raised inside the Rust remove_tags, surfaces as a pyo3 panic
+                if name not in EXPECTED + ("LockContention",):
+                    raise
+                state1 = [_binfo(br), [idx(x) for x in wt.get_parent_ids()], _binfo(mb) if mb is not None else None]
+                return [Err(name), state0 == state1 and files0 == _disk(wt)]
         finally:
             if mb is not None:
                 br.set_bound_location(None)
@@ -317,19 +381,32 @@ def impl(inp):
         with open(os.path.join(base, "new"), "wb") as f:
             f.write(b"new file\n")
         wt.add(["new"])
-    before = [_binfo(br), [idx(x) for x in wt.get_parent_ids()], _disk(wt), _changes(wt)]
-    _state["fresh"] += 1
-    wt.commit("c", rev_id=b"r%d.%d" % (len(g), _state["fresh"]))
-    mid = _binfo(br)
+    bound = inp.get("bound")
+    mb = None
+    if bound is not None:
+        mb = _master(site, g)
+        _set_branch(mb, g, bound["tip"], bound["tags"])
+        br.set_bound_location(mb.base)
     try:
-        uncommit(br, tree=wt, keep_tags=inp["keep_tags"])
-    except Exception as ex:
-        if type(ex).__name__ not in EXPECTED:
-            raise
-        return [Err(type(ex).__name__)]
-    after = [_binfo(br), [idx(x) for x in wt.get_parent_ids()], _disk(wt), _changes(wt)]
-    wt.revert(backups=False)
-    return [Tag("ok"), after[0], after[1], None,
+        before = [_binfo(br), [idx(x) for x in wt.get_parent_ids()], _disk(wt), _changes(wt)]
+        _state["fresh"] += 1
+        wt.commit("c", rev_id=b"r%d.%d" % (len(g), _state["fresh"]), local=bound is not None)
+        mid = _binfo(br)
+        state0 = [mid, [idx(x) for x in wt.get_parent_ids()], _binfo(mb) if mb is not None else None, _disk(wt)]
+        try:
+            uncommit(br, tree=wt, keep_tags=inp["keep_tags"], local=bool(bound is not None and inp["local"]))
+        except Exception as ex:
+            if type(ex).__name__ not in EXPECTED:
+                raise
+            state1 = [_binfo(br), [idx(x) for x in wt.get_parent_ids()], _binfo(mb) if mb is not None else None, _disk(wt)]
+            return [Err(type(ex).__name__), state0 == state1]
+        after = [_binfo(br), [idx(x) for x in wt.get_parent_ids()], _disk(wt), _changes(wt)]
+        minfo = _binfo(mb) if mb is not None else None
+    finally:
+        if mb is not None:
+            br.set_bound_location(None)
+        wt.revert(backups=False)
+    return [Tag("ok"), after[0], after[1], minfo,
             {"committed": mid[:2], "same_info": before[0] == after[0], "same_parents": before[1] == after[1],
              "same_files": before[2] == after[2], "same_changes": before[3] == after[3],
              "n_changes": len(before[3])}]
@@ -337,8 +414,10 @@ def impl(inp):
 
 def impl_obs(inp, obs):
     """The part of the observation the model predicts."""
-    if inp["kind"] == "filter" or isinstance(obs, Err) or len(obs) == 1:
+    if inp["kind"] == "filter" or isinstance(obs, Err):
         return obs
+    if isinstance(obs[0], Err):
+        return [obs[0]]          # the model's error carries no state; "unchanged" is checked by the oracle
     return obs[:4]
 
 
@@ -354,6 +433,7 @@ def _coq_bstate(g, tip, tags):
 
 
 def model_term(inp):
+    inp = expand(inp)
     g = daglib.coq_dag(inp["g"])
     if inp["kind"] == "filter":
         return f"run_filter {g} {coq_list(inp['ps'], str)}"
@@ -363,6 +443,10 @@ def model_term(inp):
         m = inp["master"]
         master = "None" if m is None else f"(Some {_coq_bstate(inp['g'], m['tip'], m['tags'])})"
         return f"run_uncommit {g} {b} {tp} {master} {inp['k']} {coq_bool(inp['keep_tags'])} {coq_bool(inp['local'])}"
+    if inp.get("bound") is not None:
+        mb = _coq_bstate(inp["g"], inp["bound"]["tip"], inp["bound"]["tags"])
+        return (f"run_roundtrip_bound {g} {b} {coq_list(inp['tp'], str)} {coq_bool(inp['keep_tags'])} "
+                f"{mb} {coq_bool(inp['local'])}")
     return f"run_roundtrip {g} {b} {coq_list(inp['tp'], str)} {coq_bool(inp['keep_tags'])}"
 
 
@@ -371,13 +455,23 @@ def model_term(inp):
 def oracle(inp, obs):
     if isinstance(obs, Err) and str(obs).startswith("DRIVER:"):
         return "driver error " + str(obs)
+    inp = expand(inp)
     g = inp["g"]
     kind = inp["kind"]
     if kind == "filter":
         return None
+    failed = isinstance(obs[0], Err)
     if kind == "roundtrip":
-        if len(obs) == 1:
-            return f"uncommit after commit failed with {obs[0]}"
+        bound = inp.get("bound")
+        if bound is not None and not inp["local"]:
+            # mixed: local commit, then a non-local uncommit: the branch is ahead of its master
+            if not (failed and obs[0] == Err("BoundBranchOutOfDate")):
+                return f"non-local uncommit of a local commit gave {obs[0]}, the property demands BoundBranchOutOfDate"
+            return None if obs[1] else "BoundBranchOutOfDate was raised but branch/tree/master state changed"
+        if failed:
+            return f"uncommit after commit failed with {obs[0]}" + (" (bound branch, commit --local + uncommit --local)" if bound else "")
+        if bound is not None and obs[3][:2] != [daglib.revno_of(g, bound["tip"]), bound["tip"]]:
+            return f"local commit + local uncommit moved the master to {obs[3][:2]}"
         x = obs[4]
         want_revno = daglib.revno_of(g, inp["tip"]) + 1
         if x["committed"] != [want_revno, len(g)]:
@@ -391,14 +485,18 @@ def oracle(inp, obs):
     tip, k, tp, m = inp["tip"], inp["k"], inp["tp"], inp["master"]
     revno = daglib.revno_of(g, tip)
     if inp["local"] and m is None:
-        return None if obs == [Err("LocalRequiresBoundBranch")] else f"local=True without master gave {obs[0]}"
+        if not (failed and obs[0] == Err("LocalRequiresBoundBranch")):
+            return f"local=True without master gave {obs[0]}"
+        return None if obs[1] else "LocalRequiresBoundBranch was raised but the state changed"
     if m is not None and not inp["local"] and m["tip"] != tip:
-        return None if obs == [Err("BoundBranchOutOfDate")] else f"out-of-date bound branch gave {obs[0]}"
-    if len(obs) == 1:
+        if not (failed and obs[0] == Err("BoundBranchOutOfDate")):
+            return f"out-of-date bound branch gave {obs[0]}"
+        return None if obs[1] else "BoundBranchOutOfDate was raised but branch/tree/master state changed"
+    if failed:
         lh = daglib.lefthand(g, tip)
         if obs[0] == Err("GhostRevisionUnusableHere") and k == 0:
             return None       # nothing to be the tree's basis but a ghost
-        return f"uncommit failed with {obs[0]}"
+        return f"uncommit failed with {obs[0]}" + (f" (local={inp['local']}, master at {m['tip']}, branch at {tip})" if m else "")
     _, b, tparents, mb, files_same = obs
     lh = daglib.lefthand(g, tip)
     d = revno - k
@@ -451,6 +549,7 @@ def _tags_to_drop(inp):
 
 
 def finding_matches(fid, inp, obs, why):
+    inp = expand(inp)
     if fid == "C16-bound-tag-removal-lock-contention":
         # bound branch in step with its master, not local, not keep_tags, at least one tag to drop
         m = inp.get("master")
@@ -467,6 +566,7 @@ def finding_matches(fid, inp, obs, why):
 
 
 def nontrivial(inp, obs):
+    inp = expand(inp)
     if inp["kind"] == "roundtrip":
         return True
     return inp["kind"] == "uncommit" and inp["k"] < daglib.revno_of(inp["g"], inp["tip"])
@@ -475,12 +575,18 @@ def nontrivial(inp, obs):
 def distribution(inputs, observations):
     d = {"filter": 0, "uncommit": 0, "roundtrip": 0, "with_tree": 0, "with_pending": 0, "bound": 0, "local": 0,
          "keep_tags": 0, "to_null": 0, "removed_merge": 0, "tags_dropped": 0, "depth": {}, "status": {}}
+    d.update(localseq=0, local_ahead_of_master=0, roundtrip_bound_local=0, roundtrip_bound_mixed=0)
     for i, o in zip(inputs, observations):
         d[i["kind"]] += 1
         if i["kind"] == "filter":
             continue
+        if i["kind"] == "roundtrip" and i.get("bound") is not None:
+            d["roundtrip_bound_local" if i["local"] else "roundtrip_bound_mixed"] += 1
+        i = expand(i)
+        if i["kind"] == "uncommit" and i["master"] is not None and i["local"] and i["master"]["tip"] != i["tip"]:
+            d["local_ahead_of_master"] += 1
         g = i["g"]
-        st = "ok" if not isinstance(o, Err) and len(o) > 1 else str(o if isinstance(o, Err) else o[0])
+        st = "ok" if not isinstance(o, Err) and not isinstance(o[0], Err) else str(o if isinstance(o, Err) else o[0])
         d["status"][st] = d["status"].get(st, 0) + 1
         d["keep_tags"] += bool(i["keep_tags"])
         d["with_pending"] += bool(i["tp"] and len(i["tp"]) > 1)
